@@ -29,6 +29,10 @@ CHECK = {
     "min_nontrivial": {"quick": 150, "thorough": 600},
     "exhaustive": {"quick": False, "thorough": True},
     "stages": [
+        # unions / differences of more than 1000 lattice operands in one batch (chunked BatchUnion, Compose of disjoint sets)
+        {"name": "lattice-bigbatch", "variant": "asan", "harness": "c02_bigbatch.cpp",
+         "cases": {"quick": 24, "thorough": 400}, "params": {"maxOperands": {"quick": 1300, "thorough": 1900}},
+         "case_timeout": 900},
         {"name": "lattice-pairs", "variant": "asan", "harness": "c02_boolean.cpp",
          "cases": {"quick": 150, "thorough": 2916},
          "params": {"block": 16, "exhaustive": {"quick": 0, "thorough": 1}},
